@@ -443,7 +443,12 @@ class LoopState(object):
         self.interp, self.env, self.k = interp, env, k
 
     def __getitem__(self, name):
-        v = self.env.lookup(name)
+        try:
+            v = self.env.lookup(name)
+        except KeyError:
+            # the contract names a local variable the function no longer has (renamed / restructured code): the proof cannot be
+            # re-established for this tree -- undecided, not a checker fault and not a violation
+            raise Unsupported('binding lost: the contract refers to local variable %r, which the function no longer has' % name)
         if isinstance(v, PyList):
             try:
                 return seq_of_items(v.items, v.kind, v.origin)      # read-only symbolic view of a concrete list
